@@ -23,6 +23,11 @@ Theorem C14_object_printing m1 m2 :
 Proof. exact (object_print_order_independent m1 m2). Qed.
 Print Assumptions C14_object_printing.
 
+Theorem C14_object_dump ident m1 m2 :
+  NoDup (map fst m1) -> Permutation m1 m2 -> dump_value ident (VObj m1) = dump_value ident (VObj m2).
+Proof. exact (object_dump_order_independent ident m1 m2). Qed.
+Print Assumptions C14_object_dump.
+
 Theorem C14_object_literal cx fuel en ln p1 p2 :
   NoDup (map fst p1) -> Permutation p1 p2 ->
   eval_expr cx fuel en (EObj ln p1) = eval_expr cx fuel en (EObj ln p2).
